@@ -479,7 +479,7 @@ def execute(model, sc: Scenario, name="s"):
     lines = [SDV.new_line(name, sc.tm, sc.services)] + [SDV.model_line(name, e) for e in evs]
     outs = model.run(lines)
     div = None
-    if outs[0] != first:
+    if not same_state(first, outs[0]):
         div = -1
     else:
         for i, (a, b) in enumerate(zip(ist, outs[1:])):
